@@ -1247,4 +1247,69 @@ theorem setup_solve_backend_independent (cs : Consts K) (sqrtF : K → K) (poiso
   exact first_solve_backend_independent cs sqrtF s perm1 perm2 be2 hb1 hb2 hv hτ1 hft heps h15 h05
     hPs hkis hrs st.rhoInit st.deltaInit _ _ _ _ hks hρ0 hδ0 hnl hnu hguard
 end endToEnd
+
+/-! ## C02 for every back end -/
+section anyBackend
+variable {K : Type} [Field K] [LinearOrder K] [IsStrictOrderedRing K] [Inhabited K]
+variable {n p m : Nat}
+
+/-- C02 for every back end at once: the first `solve()` after `setup()` never answers NUMERICS on convex data (dense included,
+    which `C02.first_solve_never_numerics` leaves out) -/
+theorem first_solve_never_numerics_any (cs : Consts K) (sqrtF : K → K) (s : Solver K n p m) (perm : Vector (Fin (n + p + m)) (n + p + m))
+    (hb : BackendOk sqrtF s.be perm) (hv : s.st.verify = true) (hτ1 : s.st.tau < 1)
+    (hft : 0 < s.st.regFinetuneLowerLimit) (heps : 0 ≤ cs.machEps) (h15 : 1 ≤ cs.c1_5) (h05 : 0 < cs.c0_5)
+    (hP : ∀ x : Vec K n, 0 ≤ quad s.data.Psym x) (hki : s.kktInitState = true) (hr : s.refineOn = false)
+    (rho delta : K) (o1 o2 o3 o4 : Vec K n) (hk : s.kkt = KKT.init s.be s.data rho delta o1 o2 o3 o4) (hρ : 0 < rho) (hδ : 0 < delta)
+    (hnl : s.data.lb.cnt ≤ n) (hnu : s.data.ub.cnt ≤ n)
+    (hguard : ∀ (w0 : Work K n p m) (kkt1 : KKT K n p m) (b : Bool), m + s.data.lb.cnt + s.data.ub.cnt ≠ 0 →
+      0 < (mehrotraShift cs s.data (ipBeforeShift cs s (Solver.env cs sqrtF s perm) w0 kkt1 b)).2.2) :
+    (solveTyped cs sqrtF s perm).2 ≠ Status.numerics := by
+  obtain ⟨hρ0, hδ0, hrl, hτ0⟩ := verify_facts s.st hv
+  have hP' : ∀ x : Vec K n, 0 ≤ quad (Solver.env cs sqrtF s perm).data.Psym x := hP
+  have g : GoodInner (Solver.env cs sqrtF s perm) := goodInner_of _ sqrtF perm hb rfl hP'
+  have hk0 : (solveStart cs sqrtF s perm).2.1 = KKT.init s.be s.data rho delta o1 o2 o3 o4 := by
+    rw [← hk]; simp only [solveStart, hki, Bool.not_true, Bool.false_eq_true, if_false]
+  have F := factored_init (Solver.env cs sqrtF s perm) g rho delta o1 o2 o3 o4 hρ hδ
+  have hfa : ((realOps (Solver.env cs sqrtF s perm)).factor s.refineOn ((solveStart cs sqrtF s perm).1, (solveStart cs sqrtF s perm).2.1)).2 = true := by
+    rw [hr, hk0]
+    obtain ⟨slv, hf, _⟩ := F.slv
+    show (KKT.factOk _) = true
+    unfold KKT.factOk
+    rw [show ∀ k : KKT K n p m, k.fsol.isSome = true ↔ ∃ x, k.fsol = some x from fun k => Option.isSome_iff_exists]
+    exact ⟨slv, hf⟩
+  have hcache : C13.CachesOk s.be s.data
+      ((realOps (Solver.env cs sqrtF s perm)).factor s.refineOn ((solveStart cs sqrtF s perm).1, (solveStart cs sqrtF s perm).2.1)).1.2 := by
+    rw [hk0]
+    exact C04.regFactor_cachesOk _ _ _ _ _ _ (C13.init_cachesOk _ _ _ _ _ _ _ _)
+  rw [solveTyped_of_factor cs sqrtF s perm hv hfa]
+  simp only
+  unfold mainLoop
+  apply loopG_never_numerics _ _ (realOps (Solver.env cs sqrtF s perm)) (ConvInv (Solver.env cs sqrtF s perm))
+    (realOps_convInv (Solver.env cs sqrtF s perm) g.fac hτ0 hτ1 heps hft)
+  refine ⟨?_, ?_, ?_, ?_, ?_⟩
+  · exact C08.initialPoint_in_cone cs s (Solver.env cs sqrtF s perm) (solveStart cs sqrtF s perm).1 _
+      (solveStart cs sqrtF s perm).2.2 s.refineOn hnl hnu h15 h05 (hguard _ _ _)
+  · rw [C04.initialPoint_kkt]; exact hcache
+  · unfold initialPoint; simp only; split <;> exact hρ0
+  · unfold initialPoint; simp only; split <;> exact hδ0
+  · unfold initialPoint; simp only; split <;> exact hrl
+
+/-- a corollary for C04 (stale state): `solve()` reads the stored KKT object only through its scalings and its caches — two solver
+    objects that differ in the KKT object alone (different histories of factorisations, regularised copies, cached products, as long
+    as both caches agree with the data) return the same answer -/
+theorem solve_independent_of_kkt_history (cs : Consts K) (sqrtF : K → K) (s : Solver K n p m)
+    (perm : Vector (Fin (n + p + m)) (n + p + m)) (kkt2 : KKT K n p m) (hb : BackendOk sqrtF s.be perm)
+    (hv : s.st.verify = true) (hτ1 : s.st.tau < 1) (hft : 0 < s.st.regFinetuneLowerLimit) (heps : 0 ≤ cs.machEps)
+    (h15 : 1 ≤ cs.c1_5) (h05 : 0 < cs.c0_5)
+    (hP : ∀ x : Vec K n, 0 ≤ quad s.data.Psym x)
+    (hc1 : C13.CachesOk s.be s.data s.kkt) (hc2 : C13.CachesOk s.be s.data kkt2) (hss : SameScalings s.kkt kkt2)
+    (hki : s.kktInitState = false) (hr : s.refineOn = false)
+    (hnl : s.data.lb.cnt ≤ n) (hnu : s.data.ub.cnt ≤ n)
+    (hguard : ∀ (w0 : Work K n p m) (kkt1 : KKT K n p m) (b : Bool), m + s.data.lb.cnt + s.data.ub.cnt ≠ 0 →
+      0 < (mehrotraShift cs s.data (ipBeforeShift cs s (Solver.env cs sqrtF s perm) w0 kkt1 b)).2.2) :
+    (solveTyped cs sqrtF { s with kkt := kkt2 } perm).2 = (solveTyped cs sqrtF s perm).2 ∧
+    (solveTyped cs sqrtF { s with kkt := kkt2 } perm).1.w = (solveTyped cs sqrtF s perm).1.w ∧
+    (solveTyped cs sqrtF { s with kkt := kkt2 } perm).1.info = (solveTyped cs sqrtF s perm).1.info :=
+  solve_backend_independent cs sqrtF s perm perm s.be kkt2 hb hb hv hτ1 hft heps h15 h05 hP hc1 hc2 hss hki hr hnl hnu hguard
+end anyBackend
 end Piqp.C10
